@@ -50,6 +50,6 @@ func newRecorderObserve(c *restful.Container, hr *http.Request, cell **obsCell) 
 		}()
 		c.Dispatch(rec, hr)
 	}()
-	out.code, out.hdr, out.body, out.ran = rec.Code, rec.Header(), rec.Body.Bytes(), len((*cell).ran)
+	out.code, out.hdr, out.body, out.ran = rec.Code, wireHeader(rec), rec.Body.Bytes(), len((*cell).ran)
 	return out
 }
